@@ -71,6 +71,87 @@ def words(ws):
     return coq_list([hex(w) for w in ws]) + '%uint63'
 
 
+# ------------------------------------------------------------ statefulness
+def snapshot(path):
+    """immutable deep copy of what a parse returned: kinds and attribute values"""
+    from svgpathtools import Line, QuadraticBezier, CubicBezier, Arc
+    out = []
+    for s in path:
+        if isinstance(s, Line):
+            out.append(('Line', s.start, s.end))
+        elif isinstance(s, QuadraticBezier):
+            out.append(('QuadraticBezier', s.start, s.control, s.end))
+        elif isinstance(s, CubicBezier):
+            out.append(('CubicBezier', s.start, s.control1, s.control2, s.end))
+        elif isinstance(s, Arc):
+            out.append(('Arc', s.start, s.radius, s.rotation, s.large_arc, s.sweep, s.end))
+        else:
+            out.append((type(s).__name__,))
+    return tuple(out)
+
+
+def mutate_in_place(path, rng):
+    """edit the returned object through the public API: segment attributes,
+    the Path.start / Path.end setters, and the container itself"""
+    from svgpathtools import Line
+    off = complex(rng.randint(1, 9), -rng.randint(1, 9)) + 1000
+    for s in path:
+        for a in ('start', 'end', 'control', 'control1', 'control2'):
+            if hasattr(s, a) and getattr(s, a) is not None:
+                setattr(s, a, getattr(s, a) + off)
+        if hasattr(s, 'large_arc'):
+            s.large_arc, s.sweep, s.rotation = not s.large_arc, not s.sweep, s.rotation + 33.0
+            s.radius = s.radius * 3
+    if len(path):
+        try:
+            path.start = path[0].start - 2 * off          # Path.start / Path.end setters
+            path.end = path[-1].end - 3 * off
+        except Exception:
+            pass
+        path.append(Line(path[-1].end, path[-1].end + 1))   # and the container
+        path.reverse()
+        del path[0]
+
+
+def stateful_check(d, pos0, other, rng):
+    """parse d, edit the result in place, parse the byte-identical string (and
+    another spelling of the same program) again.  Returns a list of (key, message)."""
+    from svgpathtools import parse_path
+    bad = []
+    with warnings.catch_warnings():
+        warnings.simplefilter('ignore')
+        kw = {'current_pos': pos0} if pos0 != 0j else {}
+        p1 = parse_path(d, **kw)
+        before = snapshot(p1)
+        ids1 = set(id(s) for s in p1)
+        keep = list(p1)                      # keep the objects alive so ids stay meaningful
+        mutate_in_place(p1, rng)
+        p2 = parse_path(d, **kw)
+        after = snapshot(p2)
+        if after != before:
+            k = [i for i, (a, b) in enumerate(zip(before, after)) if a != b]
+            bad.append(('stateful-reparse-differs',
+                        'parse_path(%r) after the first result was edited in place returns %s instead of %s'
+                        % (d, (after[k[0]] if k else after[-1:]) if after else after,
+                           (before[k[0]] if k else before[-1:]) if before else before)))
+        if any(id(s) in ids1 for s in p2):
+            bad.append(('stateful-aliased-segments',
+                        'two calls of parse_path(%r) return Paths sharing segment objects' % d))
+        if other is not None:
+            mutate_in_place(p2, rng)
+            p3 = parse_path(other, **kw)
+            if snapshot(p3) != before:
+                bad.append(('stateful-respelling-differs',
+                            'parse_path(%r) differs from the first parse of its other spelling %r after in-place edits'
+                            % (other, d)))
+            p4 = parse_path(d, **kw)
+            if snapshot(p4) != before:
+                bad.append(('stateful-reparse-differs',
+                            'third parse_path(%r) differs from the first after in-place edits' % d))
+        del keep
+    return before, bad
+
+
 def coq_str(s):
     """the bytes of s, 6 to a word, each word = 1 then the bytes in base 256"""
     b = s.encode('ascii')
@@ -932,6 +1013,44 @@ def run(rep, tier, seed, replay=None):
                 }.get(key, 'parse_path differs from the reference interpreter of SVG 1.1 section 8.3')
                 rep.violation('C02 [%s] %s: %r (%d such strings in this run)' % (key, what, c.d, len(idx)),
                               rp(c, kind='property', code=k, cls=key), key=key)
+        # --- statefulness: the same string parsed again after the first result was edited in place
+        # (the first parse of these very strings is what Coq compared with the models above)
+        respelled = {}
+        for c in cases:
+            if isinstance(c.canon_key, Case) and not c.risky:
+                respelled.setdefault(id(c.canon_key), c)
+        pool = [c for c in cases if c.key and c.key[0] == 'ok' and c.key[1]]
+        want = 400 if tier == 'quick' else 4000
+        srng = common.mkrng(seed, 'C02-stateful')
+        sample = [c for c in pool if c.stream.startswith('corpus') or c.stream == 'replay']
+        rest = [c for c in pool if c.stream in ('random-canonical', 'exhaustive-canonical', 'random-respelled')]
+        srng.shuffle(rest)
+        rest.sort(key=lambda c: c.stream != 'random-canonical')       # random programs first (they have respellings)
+        sample += rest[:max(0, want - len(sample))]
+        nstate, state_bad = 0, {}
+        for c in sample:
+            oc = respelled.get(id(c))
+            other = oc.d if oc is not None and oc.key == c.key else None
+            try:
+                before, bad = stateful_check(c.d, c.pos0, other, srng)
+            except Exception as e:
+                before, bad = None, [('stateful-exception', 're-parsing %r raised %s' % (c.d, type(e).__name__))]
+            nstate += 1
+            if before is not None and before != c.key[1]:
+                bad.append(('stateful-first-parse-differs',
+                            'parse_path(%r) in this process differs from the parse compared with the model' % c.d))
+            for key, msg in bad:
+                state_bad.setdefault(key, []).append((c, msg, other))
+        for key, lst in sorted(state_bad.items()):
+            lst.sort(key=lambda t: len(t[0].d))
+            c, msg, other = lst[0]
+            rep.violation('C02 [%s] %s (%d of %d sampled strings)' % (key, msg, len(set(id(t[0]) for t in lst)), nstate),
+                          rp(c, kind='stateful', cls=key, other=other), key=key)
+        rep.cov['stateful_reparse'] = {'strings': nstate, 'with_other_spelling': sum(1 for c in sample if id(c) in respelled),
+                                       'violations': {k: len(set(id(t[0]) for t in v)) for k, v in state_bad.items()},
+                                       'rule': 'parse, edit every segment attribute + Path.start/end + the container in place, '
+                                               'parse the identical string (and another spelling) again: must equal the '
+                                               'first parse (deep snapshot) and share no segment object'}
         # python-level restatement (holds_impl): a respelling parses to the same path as its canonical spelling
         for i, c in enumerate(cases):
             if c.canon_key is not None and isinstance(c.canon_key, Case) and c.key != c.canon_key.key:
@@ -947,7 +1066,7 @@ def run(rep, tier, seed, replay=None):
                 nontriv.add((ls, c.d))
         tied = sum(1 for i in range(len(cases)) if code_variant and lex_variant
                    and not (codes.get(i, 0) & (lex_variant | code_variant)))
-        rep.cov['evaluations'] = len(cases) * 9 + len(gram)
+        rep.cov['evaluations'] = len(cases) * 9 + len(gram) + 3 * nstate
         rep.cov['traces_validated_against_impl'] = tied
         rep.cov['distinct_nontrivial'] = len(nontriv)
         rep.cov['rule'] = ("strings parsed by svgpathtools.parse_path and, inside Coq, by tokenize + the four variants of impl_parse "
